@@ -3,8 +3,7 @@ package main
 import (
 	"fmt"
 	"math/rand"
-	"reflect"
-	"sort"
+		"sort"
 
 	"github.com/ohler55/ojg/jp"
 )
@@ -13,6 +12,20 @@ func try(f func()) (p any) {
 	defer func() { p = recover() }()
 	f()
 	return nil
+}
+
+var datas = []any{
+	map[string]any{"a": []any{int64(1), map[string]any{"x": int64(1), "a": int64(2)}, []any{int64(3), int64(4)}}, "b c": int64(5), "x.y": map[string]any{"a": int64(6)}, "": int64(7), "x": int64(1)},
+	[]any{map[string]any{"a": int64(1), "x": int64(1)}, []any{int64(2), int64(3), int64(4)}, int64(5), map[string]any{"b c": []any{int64(6)}}},
+}
+
+func sortedKeys(vs []any) []string {
+	out := make([]string, len(vs))
+	for i, v := range vs {
+		out[i] = fmt.Sprintf("%v", v)
+	}
+	sort.Strings(out)
+	return out
 }
 
 func main() {
@@ -55,18 +68,12 @@ func main() {
 				note(label+" print-differs", fmt.Sprintf("%q -> %q", s1, s2))
 				continue
 			}
-			// structural equality modulo Bracket frags
-			strip := func(e jp.Expr) (o []string) {
-				for _, f := range e {
-					if _, ok := f.(jp.Bracket); ok {
-						continue
-					}
-					o = append(o, fmt.Sprintf("%T:%v", f, f))
+			// evaluation equality on sample data
+			for _, d := range datas {
+				if fmt.Sprint(sortedKeys(x.Get(d))) != fmt.Sprint(sortedKeys(x2.Get(d))) {
+					note(label+" evaluates-differently", fmt.Sprintf("%q", s1))
+					break
 				}
-				return
-			}
-			if !reflect.DeepEqual(strip(x), strip(x2)) {
-				note(label+" structure-differs", fmt.Sprintf("%q: %v vs %v", s1, strip(x), strip(x2)))
 			}
 		}
 	}
@@ -109,8 +116,6 @@ func main() {
 			return s
 		case 6:
 			return jp.MustNewFilter("[?(@.x == 1)]")
-		case 7:
-			return jp.Bracket(' ')
 		default:
 			return jp.Slice{}
 		}
